@@ -86,8 +86,11 @@ func (b *BFS) exec(hist []uint8) (ok bool, key string, viol []Violation, panicS 
 			viol = append(viol, v...)
 		}
 	}
+	// the key is taken BEFORE the state-level oracle runs: an oracle may probe the system through calls that
+	// refresh caches (e.g. lazily computed values), and that must not leak into the state identity
+	key = s.Key()
 	viol = append(viol, s.Invariants()...)
-	return true, s.Key(), viol, ""
+	return true, key, viol, ""
 }
 
 // Run explores to MaxDepth (or until the frontier empties, the state cap or the time budget is hit).
